@@ -65,3 +65,7 @@ Definition gen_attr (g : gen) : option name :=
   match g with GScalar _ a | GElem _ a _ _ => Some a | _ => None end.
 Definition is_helper_entry (e : option entry) : Prop :=
   exists g b, e = Some (EGen g b) /\ helper_gen g = true.
+
+(* the init / repr / eq switches of the decorator *)
+Definition core_enabled (c : cfg) (cr : core) : bool :=
+  match cr with CInit => c_init c | CRepr => c_repr c | CEq => c_eq c | _ => true end.
